@@ -309,6 +309,35 @@ def annotation_gaps(text, info, names, degraded, lost=()):
                 outside = (ids[0] not in crate_types) if not tok.startswith('.') else (nm in WEAKLY_SPECIFIED_METHODS and nm not in real_fns)
                 if outside and tok not in base_all:
                     reasons.append('calls-external-function-the-reviewed-tree-never-calls:' + tok[:-1])
+            # (vi) a comparison method called on a tuple or array expression: dispatched through Ord / PartialEq of a foreign
+            # type, which Verus accepts without constraining the result
+            pl = exotic_strip(plain)
+            for m_ in re.finditer(r'([)\]])\s*\.\s*(cmp|partial_cmp|eq|ne|lt|le|gt|ge|max|min)\s*\(', pl):
+                close = m_.start(1)
+                opn = {')': '(', ']': '['}[m_.group(1)]
+                depth, k = 0, close
+                while k >= 0:
+                    if pl[k] == m_.group(1):
+                        depth += 1
+                    elif pl[k] == opn:
+                        depth -= 1
+                        if depth == 0:
+                            break
+                    k -= 1
+                if k < 0:
+                    continue
+                before = pl[:k].rstrip()[-1:]
+                inner = pl[k + 1:close]
+                top, d2 = False, 0
+                for ch in inner:
+                    if ch in '([{':
+                        d2 += 1
+                    elif ch in ')]}':
+                        d2 -= 1
+                    elif ch == ',' and d2 == 0:
+                        top = True
+                if (not re.match(r'[A-Za-z0-9_>]', before or ' ')) and (top or opn == '[') and re.sub(r'\s+', '', pl[k:m_.end()]) not in base_all:
+                    reasons.append('compares-tuples-or-arrays-through-a-trait-method:.' + m_.group(2))
             for snip, op in exotic_ops(code):
                 if snip not in base_all:
                     reasons.append('uses-operator-outside-the-default-solver-theory:' + op)
